@@ -30,6 +30,13 @@ PERTURB = [
     "SELECTED_OUTPUT 1\n -reset false\n -pH true\nUSER_GRAPH 1\n -headings a\n 10 GRAPH_X 1\nSOLUTION 1\n Na 1\nEND\n",
     "ISOTOPES\n H\n -isotope D permil 155.76e-6\nSOLUTION 1\n Na 1\n Cl 1\nDUMP\n -all\nEND\n",
 ]
+PERTURB += [
+    # interpreter-level BASIC state (sticky output flags, DATA pointer, arrays, variables)
+    "SELECTED_OUTPUT 1\n -reset false\nUSER_PUNCH 1\n -headings a\n 10 PUNCH 1\n 20 t$ = EOL_NOTAB$\nSOLUTION 1\n Na 1\nEND\n",
+    "SELECTED_OUTPUT 1\n -reset false\nUSER_PUNCH 1\n -headings a\n 10 PUNCH 1\n 20 t$ = NO_NEWLINE$\nSOLUTION 1\n Na 1\nEND\n",
+    "SELECTED_OUTPUT 1\n -reset false\nUSER_PUNCH 1\n -headings a b\n 10 DIM q(10)\n 20 q(3) = 17\n 30 DATA 5, 6, 7\n 40 READ x\n 50 zz = 99\n 60 PUNCH q(3), x\nUSER_PRINT\n 10 PRINT \"hello\", EOL_NOTAB$\nSOLUTION 1\n Na 1\nEND\n",
+    "SELECTED_OUTPUT 1\n -reset false\nUSER_PUNCH 1\n -headings a\n 10 DIM a(2)\n 20 PUNCH NO_NEWLINE$ + STR$(a(5))\nSOLUTION 1\n Na 1\nEND\n",
+]
 FAILING = [
     "SOLUTION 1\n Na 1\n Clx 3 charge\nEND\n",                 # input error
     "SOLUTION 1\n pH 7 charge\n Na 1 charge\nEND\n",            # two charge balances
@@ -40,7 +47,7 @@ FAILING = [
     "KINETICS 1\n norate\n -m0 1\nSOLUTION 1\n Na 1\nEND\n",     # rate not found
 ]
 DBS = ["phreeqc.dat", "wateq4f.dat", "pitzer.dat", "sit.dat", "Amm.dat", "minteq.v4.dat"]
-PROBE_EXTRA = ("USER_PUNCH 1\n -headings g1 g2 cv\n 10 PUNCH GET(1), GET(2, 3), MU\nSELECTED_OUTPUT 1\n -high_precision true\n -totals Na Cl\n"
+PROBE_EXTRA = ("USER_PUNCH 1\n -headings s1 s2 g1 g2 cv q3 x zz\n 10 PUNCH \"x\", \"y\", GET(1), GET(2, 3), MU\n 20 READ x\n 30 PUNCH x, zz\n 40 DATA 41, 42\nUSER_PRINT\n 10 PRINT \"probe\", MU\nSELECTED_OUTPUT 1\n -high_precision true\n -totals Na Cl\n"
                "SOLUTION 1\n Na 1.5\n Cl 1.5\n Ca 0.2\n C(4) 0.4\nREACTION 1\n NaCl 1\n 0.001 0.002\nEND\nUSE solution 1\nEQUILIBRIUM_PHASES 1\n Calcite 0 0.01\nEND\n")
 
 
